@@ -495,3 +495,6 @@ func calls(procs []Proc, from, to int, seen map[int]bool) bool {
 	}
 	return false
 }
+
+// maxSteps bounds the labels a program may execute on the reference (longer programs are discarded).
+const maxSteps = 120
